@@ -68,7 +68,7 @@ def impl_answer(hs, iq):
             if k == 'helper':
                 r = getattr(tr, 'get_' + iq[1])(hs[iq[4]], iq[2], iq[3])
             elif k == 'path':
-                return {'ok': bool(tr.exists_path(hs[iq[3]], iq[1], iq[2]))}
+                return {'ok': gl.as_bool(tr.exists_path(hs[iq[3]], iq[1], iq[2]))}
             else:
                 f = au.augment_with_ancestors if iq[1] == 'ancestors' else au.augment_with_descendants
                 r = f(hs[iq[4]], iq[2], iq[3])
